@@ -110,6 +110,10 @@ DOC = [
     ('<[SpeedLimit] as ObjState>::validate', 'speed limits sorted', 'push', r'iter\.all\(seq\[windows\(self\)', False, []),
     ('<SpeedLimit as ObjState>::validate', 'speed limit start <= end', 'push', r'\(self\.offset_start > self\.offset_end\)', True, []),
     ('<SpeedLimit as ObjState>::validate', 'speed is a number', 'call', r'si_chk_num\(&self\.speed\)', None, []),
+    ('<SpeedParam as ObjState>::validate', 'speed-set parameter limit is a non-negative number', 'push',
+     r'!discr\(::partial_cmp\(self\.limit_val, 0\)\) \| .*partial_cmp\(self\.limit_val, 0\)@Some\.#0\)=255', None, []),
+    ('<SpeedParam as ObjState>::validate', 'axle-count limit is an integer', 'push', r'\(f64::trunc\(self\.limit_val\) != self\.limit_val\)', True,
+     [r'\(self\.limit_type == LimitType::AxleCount\(\)\)=True']),
     ('<[CatPowerLimit] as ObjState>::validate', 'catenary sections non-overlapping', 'push', r'iter\.(any|all)\(seq\[windows\(self\)', None, []),
     ('<CatPowerLimit as ObjState>::validate', 'catenary start <= end', 'push', r'\(self\.offset_start > self\.offset_end\)', True, []),
     ('<CatPowerLimit as ObjState>::validate', 'catenary power >= 0', 'call', r'si_chk_num_gez\(&self\.power_limit\)', None, []),
@@ -234,7 +238,7 @@ def run(ctx):
                   'rule present: error raised under %s' % ([('%s%s' % ('' if p else '!', cnd))[:90] for cnd, p in found[1]][-3:] if found else ''),
                   'no error is raised for this rule any more (check deleted, inverted or retargeted); expected a %s matching /%s/' % (kind, rx),
                   ctx.where(an.body, found[2].span) if found else ctx.where(an.body))
-    ctx.floor('documented rules checked', n, 53)
+    ctx.floor('documented rules checked', n, 55)
     ascending(ctx)
     noabort(ctx)
     legacy(ctx)
